@@ -123,13 +123,13 @@ static void run_once(struct result *res, int fillmode)
                         struct cat_object before; memcpy(&before, W.at, sizeof before);
                         long rn0 = N_READ_NO, ro0 = N_READ_OK, w0 = N_WRITE_OK + N_WRITE_NO, h0 = N_VCALL[0] + N_VCALL[1];
                         for (int f = 0; f < 2; f++) for (int k = 0; k < 4; k++) h0 += N_HCALL[f][k];
-                        bool uidle = W.at->unsolicited_fsm.state == CAT_UNSOLICITED_STATE_IDLE && W.at->unsolicited_fsm.unsolicited_cmd_buffer_items_count == 0;   /* coverage gate only */
+                        bool uidle = OBJ_FIELDS && OBJ_USTATE() == CAT_UNSOLICITED_STATE_IDLE && OBJ_UCOUNT() == 0;   /* coverage gate only */
                         cat_status st = svc();
                         long h1 = N_VCALL[0] + N_VCALL[1]; for (int f = 0; f < 2; f++) for (int k = 0; k < 4; k++) h1 += N_HCALL[f][k];
                         if (N_READ_NO == rn0 + 1 && N_READ_OK == ro0 && N_WRITE_OK + N_WRITE_NO == w0 && h1 == h0 && uidle) {
-                                before.current_char = W.at->current_char;
+                                OBJ_EXCUSE_CURRENT_CHAR(before);
                                 CNT("refused_read_steps_compared");
-                                if (memcmp(&before, W.at, sizeof before) != 0) viol("C12", "refused-read-changed-state", "a service call whose only callback was a refused read modified the parser object (state %d)", (int)before.state);
+                                if (memcmp(&before, W.at, sizeof before) != 0) viol("C12", "refused-read-changed-state", "a service call whose only callback was a refused read modified the parser object (state %d)", OBJ_STATE());
                         }
                         if (hold_pending) { hold_pending = false; cat_hold_exit(W.at, hold_status ? CAT_STATUS_ERROR : CAT_STATUS_OK); }
                         if (st == CAT_STATUS_OK && INPOS >= INLEN) { q = true; break; }
